@@ -1025,6 +1025,23 @@ class Extractor {
           if (auto* IS = dyn_cast<IfStmt>(Term))
             if (IS->isConstexpr()) BOb["constexpr"] = true;
         }
+        if (auto* SS = dyn_cast_or_null<SwitchStmt>(Term)) {
+          // every enumerator of the switched-on enum type (exhaustiveness rules)
+          QualType CT = SS->getCond()->IgnoreParenImpCasts()->getType();
+          if (auto* ET = CT->getAs<EnumType>()) {
+            json::Array All;
+            for (auto* EC : ET->getDecl()->enumerators()) {
+              json::Object EO;
+              EO["name"] = EC->getNameAsString();
+              llvm::SmallString<32> S;
+              EC->getInitVal().toString(S, 10);
+              EO["value"] = std::string(S.str());
+              All.push_back(std::move(EO));
+            }
+            BOb["enum_all"] = std::move(All);
+            BOb["enum_type"] = typeStr(CT);
+          }
+        }
         // total number of CFG successors incl. unreachable (to tell pruned)
         BOb["nsucc"] = (int64_t)B->succ_size();
       }
